@@ -81,6 +81,7 @@ CHECKS = {
    "reference-grammar monitor (must-load / must-reject / no-panic) with process-level crash detection", "4 C18"),
  "C19": ("setup", "exploration",
    "2880 (quick) / 256000 (thorough) argument vectors over all 15 built-in plugins (valid, boundary, invalid values of every argument kind, cycling systematically through every pool value, arity 0-6), each in a fresh server process (a quarter at debug log level) through plugins.LoadPlugins: setup errors, or 40+ requests (for prefix also hints inside the configured pool) are survived and every reply parses, re-serialises byte-identically, carries the in-memory response's options, domain search lists that decode to as many names as were configured (labels of multi-byte characters included), and no DHCPv6 option longer than 65535 bytes; a handler that never returns (goroutine parked on a lock in the dump) is a violation; a slice of the lease-file engine hosts several instances of one plugin (dual-stack, twin, empty files).",
+   "a second run hosts the same vectors inside the network namespace and adds 6 requests of directly attached clients per DHCPv4 vector, answered by hand-built Ethernet frames (gopacket serialiser), whose options must equal those of the in-memory response; " +
    "pools of 2^25..2^63 blocks (accepted with a warning, need terabytes of bitmap) are excluded as resource exhaustion; replies larger than a UDP datagram cannot leave the server and are not round-tripped; truncation that round-trips is an observation.",
    "crash monitor (process per configuration) + wire round-trip oracle", "4 C19"),
  "C20": ("arith", "exploration",
